@@ -263,6 +263,11 @@ func ReadAlignment(f io.Reader, chnl chan FastaRecord, cErr chan error, cdone ch
 	for s.Scan() {
 		line := s.Text()
 
+		// blank lines carry no information
+		if len(line) == 0 {
+			continue
+		}
+
 		if first {
 
 			if len(line) == 0 || string(line[0]) != ">" {
@@ -271,6 +276,10 @@ func ReadAlignment(f io.Reader, chnl chan FastaRecord, cErr chan error, cdone ch
 			}
 
 			description = line[1:]
+			if len(strings.Fields(description)) == 0 {
+				cErr <- errors.New("badly formatted fasta file: header without a sequence ID")
+				return
+			}
 			id = strings.Fields(description)[0]
 
 			first = false
@@ -289,6 +298,10 @@ func ReadAlignment(f io.Reader, chnl chan FastaRecord, cErr chan error, cdone ch
 			counter++
 
 			description = line[1:]
+			if len(strings.Fields(description)) == 0 {
+				cErr <- errors.New("badly formatted fasta file: header without a sequence ID")
+				return
+			}
 			id = strings.Fields(description)[0]
 			seqBuffer = ""
 
@@ -355,6 +368,11 @@ func ReadEncodeAlignment(f io.Reader, hardGaps bool, chnl chan EncodedFastaRecor
 	for s.Scan() {
 		line = s.Bytes()
 
+		// blank lines carry no information
+		if len(line) == 0 {
+			continue
+		}
+
 		if first {
 
 			if len(line) == 0 || line[0] != '>' {
@@ -363,6 +381,10 @@ func ReadEncodeAlignment(f io.Reader, hardGaps bool, chnl chan EncodedFastaRecor
 			}
 
 			description = string(line[1:])
+			if len(strings.Fields(description)) == 0 {
+				cErr <- errors.New("badly formatted fasta file: header without a sequence ID")
+				return
+			}
 			id = strings.Fields(description)[0]
 
 			first = false
@@ -381,6 +403,10 @@ func ReadEncodeAlignment(f io.Reader, hardGaps bool, chnl chan EncodedFastaRecor
 			counter++
 
 			description = string(line[1:])
+			if len(strings.Fields(description)) == 0 {
+				cErr <- errors.New("badly formatted fasta file: header without a sequence ID")
+				return
+			}
 			id = strings.Fields(description)[0]
 			seqBuffer = make([]byte, 0)
 
@@ -460,6 +486,11 @@ func ReadEncodeScoreAlignment(f io.Reader, hardGaps bool, chnl chan EncodedFasta
 	for s.Scan() {
 		line = s.Bytes()
 
+		// blank lines carry no information
+		if len(line) == 0 {
+			continue
+		}
+
 		if first {
 
 			if len(line) == 0 || line[0] != '>' {
@@ -468,6 +499,10 @@ func ReadEncodeScoreAlignment(f io.Reader, hardGaps bool, chnl chan EncodedFasta
 			}
 
 			description = string(line[1:])
+			if len(strings.Fields(description)) == 0 {
+				cErr <- errors.New("badly formatted fasta file: header without a sequence ID")
+				return
+			}
 			id = strings.Fields(description)[0]
 
 			first = false
@@ -490,6 +525,10 @@ func ReadEncodeScoreAlignment(f io.Reader, hardGaps bool, chnl chan EncodedFasta
 			counter++
 
 			description = string(line[1:])
+			if len(strings.Fields(description)) == 0 {
+				cErr <- errors.New("badly formatted fasta file: header without a sequence ID")
+				return
+			}
 			id = strings.Fields(description)[0]
 			seqBuffer = make([]byte, 0)
 			score = 0
@@ -574,6 +613,11 @@ func ReadEncodeAlignmentToList(f io.Reader, hardGaps bool) ([]EncodedFastaRecord
 	for s.Scan() {
 		line = s.Bytes()
 
+		// blank lines carry no information
+		if len(line) == 0 {
+			continue
+		}
+
 		if first {
 
 			if len(line) == 0 || line[0] != '>' {
@@ -581,6 +625,9 @@ func ReadEncodeAlignmentToList(f io.Reader, hardGaps bool) ([]EncodedFastaRecord
 			}
 
 			description = string(line[1:])
+			if len(strings.Fields(description)) == 0 {
+				return []EncodedFastaRecord{}, errors.New("badly formatted fasta file: header without a sequence ID")
+			}
 			id = strings.Fields(description)[0]
 
 			first = false
@@ -598,6 +645,9 @@ func ReadEncodeAlignmentToList(f io.Reader, hardGaps bool) ([]EncodedFastaRecord
 			counter++
 
 			description = string(line[1:])
+			if len(strings.Fields(description)) == 0 {
+				return []EncodedFastaRecord{}, errors.New("badly formatted fasta file: header without a sequence ID")
+			}
 			id = strings.Fields(description)[0]
 			seqBuffer = make([]byte, 0)
 
